@@ -88,7 +88,7 @@ impl Gen<'_> {
 
     fn cmd(&mut self, depth: u32, nested: bool) -> Cmd {
         let mut c = Cmd { lines: vec![], tags: vec![], out: String::new(), heredoc: false, continuation: false, subst_tags: vec![] };
-        let top = if depth >= 2 { 6 } else { 33 };
+        let top = if depth >= 2 { 6 } else { 45 };
         match self.rng.below(top) {
             0..=2 => {
                 let (l, t) = self.probe_line();
@@ -328,6 +328,108 @@ impl Gen<'_> {
                     }
                 }
             }
+            33 => {
+                // two here-documents on one line
+                let i = self.id();
+                c.lines.push("simcat <<A1; simcat <<B1".to_string());
+                c.lines.push(format!("one {i}"));
+                c.lines.push("A1".to_string());
+                c.lines.push(format!("two {i}"));
+                c.lines.push("B1".to_string());
+                c.out = format!("one {i}\ntwo {i}\n");
+                c.heredoc = true;
+            }
+            34 => {
+                // a here-document inside a command substitution
+                let i = self.id();
+                c.lines.push(format!("echo \"$(simcat <<EOF"));
+                c.lines.push(format!("sub {i}"));
+                c.lines.push("EOF".to_string());
+                c.lines.push(")\"".to_string());
+                c.out = format!("sub {i}\n");
+                c.heredoc = true;
+            }
+            35 => {
+                let i = self.id();
+                let j = self.id();
+                let k = self.id();
+                c.lines.push("case b in".into());
+                c.lines.push(format!("  \"b\") probe p{i} $LINENO ;&"));
+                c.lines.push(format!("  (c|d) probe p{j} $LINENO ;;"));
+                c.lines.push(format!("  *) probe never{k} $LINENO ;;"));
+                c.lines.push("esac".into());
+                c.tags.push(format!("p{i}"));
+                c.tags.push(format!("p{j}"));
+            }
+            36 => {
+                let (l, t) = self.probe_line();
+                c.lines.push("false ||".to_string());
+                c.lines.push(format!("  {l}"));
+                c.tags.push(t);
+            }
+            37 => {
+                c.lines.push("simseq 2 |&".into());
+                c.lines.push("  simcat".into());
+                c.out = "1\n2\n".into();
+            }
+            38 => {
+                let i = self.id();
+                let (l, t) = self.probe_line();
+                c.lines.push("{".into());
+                c.lines.push(format!("# comment {i} inside 'a group"));
+                c.lines.push(l);
+                c.lines.push("}".into());
+                c.tags.push(t);
+            }
+            39 => {
+                let i = self.id();
+                c.lines.push(format!("echo \"dq {i} a\\"));
+                c.lines.push("b\"".to_string());
+                c.out = format!("dq {i} ab\n");
+                c.continuation = true;
+            }
+            40 => {
+                // (side finding: brush keeps a backslash-newline inside a here-document body)
+                let i = self.id();
+                c.lines.push(format!("simcat <<EOF && probe p{i} $LINENO"));
+                c.lines.push(format!("ab{i}"));
+                c.lines.push("EOF".to_string());
+                c.out = format!("ab{i}\n");
+                c.tags.push(format!("p{i}"));
+                c.heredoc = true;
+            }
+            41 if !nested => {
+                let i = self.id();
+                c.lines.push(format!("alias al{i}='probe p{i}'"));
+                c.lines.push(format!("al{i} $LINENO"));
+                c.tags.push(format!("p{i}"));
+            }
+            42 => {
+                let b = self.body(depth);
+                c.lines.push("! {".into());
+                c.lines.extend(b.lines.clone());
+                c.lines.push("}".into());
+                c.tags = b.tags;
+                c.out = b.out;
+                c.heredoc = b.heredoc;
+                c.continuation = b.continuation;
+                c.subst_tags = b.subst_tags.clone();
+            }
+            43 => {
+                c.lines.push("echo $(( 1 + \\".to_string());
+                c.lines.push("2 ))".to_string());
+                c.out = "3\n".into();
+                c.continuation = true;
+            }
+            44 => {
+                // a function whose definition carries a redirection, defined and called
+                let i = self.id();
+                c.lines.push(format!("fr{i}() {{"));
+                c.lines.push(format!("echo hidden{i}"));
+                c.lines.push(format!("probe p{i} $LINENO"));
+                c.lines.push(format!("}} > /dev/null; fr{i}"));
+                c.tags.push(format!("p{i}"));
+            }
             _ => {
                 let i = self.id();
                 c.lines.push(format!("simexit {}", self.rng.range(0, 3)));
@@ -358,7 +460,8 @@ fn normalise(cmds: Vec<Cmd>) -> Vec<Cmd> {
         let is_status_pair = c.lines.len() == 2 && c.lines[0].starts_with("simexit ");
         let is_subst_pair = c.lines.len() == 4 && c.lines[0].starts_with('x') && c.lines[0].ends_with("=$(");
         let is_two_plus_probe = c.lines.len() == 3 && (c.lines[0].starts_with("arr") || (c.lines[0].starts_with('v') && c.lines[0].contains("=${UNSET_C15"))) && c.lines[2].starts_with("probe ");
-        if is_status_pair {
+        let is_alias_pair = c.lines.len() == 2 && c.lines[0].starts_with("alias ");
+        if is_status_pair || is_alias_pair {
             out.push(Cmd { lines: vec![c.lines[0].clone()], tags: vec![], out: String::new(), heredoc: false, continuation: false, subst_tags: vec![] });
             out.push(Cmd { lines: vec![c.lines[1].clone()], tags: c.tags.clone(), out: String::new(), heredoc: false, continuation: false, subst_tags: vec![] });
         } else if is_two_plus_probe {
